@@ -1,6 +1,7 @@
 """C07 — member names are legal identifiers and wire names are preserved."""
 from __future__ import annotations
 
+import contextlib
 import dataclasses
 import json
 import keyword
@@ -813,6 +814,673 @@ def campaign_e2e(ck: Check, n: int, names_pool: list[str]) -> None:
     camp.wall_s = time.time() - t0
 
 
+# ---------------------------------------------------------------- TypedDict: inheritance (all_fields)
+def td_field_sx(name, orig, tag: int) -> str:
+    return f"({'none' if name is None else hx(name)} {'none' if orig is None else hx(orig)} {tag})"
+
+
+def td_tree_sx(tree, how: str = "cls") -> str:
+    """tree = None (not a TypedDict) | (bases: [tree], fields: [(name, orig, tag)])"""
+    if tree is None:
+        return "other"
+    bases, fields = tree
+    return f"({how} ({' '.join(td_tree_sx(b, how) for b in bases)}) ({' '.join(td_field_sx(*f) for f in fields)}))"
+
+
+def td_decode(rep: str):
+    """reply of names.tdclass → (functional, own, all_fields, rendered) or the error text"""
+    if not rep.startswith("ok "):
+        return rep
+    func, rest = rep[3:4] == "1", rep[5:]
+    groups, cur = [], None
+    for tok in rest.replace("(", " ( ").replace(")", " ) ").split():
+        if tok == "(":
+            cur = []
+        elif tok == ")":
+            groups.append(cur)
+        else:
+            parts = tok.split("/")
+            cur.append(tuple(None if q == "none" else (unhx(q) if q.startswith("x") else int(q)) for q in parts))
+    own, allf, rendered = groups
+    return func, own, allf, rendered
+
+
+TD_NAMES = ["a", "b", "unit_price", "valid_until", "class_", "x", "sku", "a_1", "é", None, ""]
+TD_ORIGS = ["a", "a-", "a+", "b", "unit-price", "unit_price", "unit price", "valid-until", "class", "class_", "x", "sku",
+            "a_1", "é", "1st", "", "q'uote", "back\\slash", "new\nline", None]
+
+
+def gen_td_tree(rng: Rng, depth: int, counter: list, allow_other: bool):
+    """random class tree of real objects: returns (model tree, real TypedDict object | None)"""
+    from datamodel_code_generator.model.rootmodel import RootModel
+    from datamodel_code_generator.model.typed_dict import DataModelField, DataModelFieldBackport, TypedDict
+    from datamodel_code_generator.reference import Reference
+    from datamodel_code_generator.types import DataType
+
+    field_cls = DataModelField if rng.chance(1, 2) else DataModelFieldBackport
+
+    def fld(name, orig, tag, req):
+        return field_cls(name=name, original_name=orig, data_type=DataType(type=f"T{tag}"), required=req)
+
+    idx = counter[0]
+    counter[0] += 1
+    ref = Reference(path=f"#/K{idx}", name=f"K{idx}")
+    if allow_other and depth < 2 and rng.chance(1, 6):
+        # a base that is no TypedDict: a reference without source, or a root model / type alias
+        if rng.chance(1, 2):
+            RootModel(reference=ref, fields=[fld(None, None, 99, True)])
+        return None, ref
+    bases = []
+    if depth > 0:
+        for _ in range(rng.choice([0, 1, 1, 1, 2, 2, 3])):
+            bases.append(gen_td_tree(rng, depth - 1, counter, allow_other))
+    fields = []
+    for _ in range(rng.choice([0, 1, 1, 2, 2, 3, 4])):
+        v = rng.below(10)
+        if v < 4:  # as the parser makes them: valid identifier, any original
+            name, orig = rng.choice(TD_NAMES[:9]), rng.choice(TD_ORIGS[:-1])
+        elif v < 7:  # key is the name: class syntax possible
+            name = rng.choice(TD_NAMES[:9])
+            orig = name
+        elif v < 8:  # `required`-only member
+            name, orig = None, rng.choice(TD_ORIGS[:-1])
+        else:
+            name, orig = rng.choice(TD_NAMES), rng.choice(TD_ORIGS)
+        tag = counter[1]
+        counter[1] += 1
+        fields.append((name, orig, tag, rng.chance(1, 3)))
+    with warnings.catch_warnings():
+        warnings.simplefilter("ignore")  # "Field name … is duplicated"
+        TypedDict(reference=ref, fields=[fld(*f) for f in fields], base_classes=[r for _, r in bases] or None)  # sets ref.source
+    return ([t for t, _ in bases], [f[:3] for f in fields]), ref
+
+
+def td_tag(f) -> int:
+    return int(f.data_type.type[1:])
+
+
+def td_exec_tree(objs: list, n_tags: int):
+    """exec the rendered classes (bases first) and read the class objects Python built"""
+    import re
+    import typing
+
+    import typing_extensions
+
+    ns: dict[str, Any] = {"TypedDict": typing.TypedDict, "NotRequired": typing_extensions.NotRequired, "Any": typing.Any}
+    for i in range(n_tags):
+        ns[f"T{i}"] = type(f"T{i}", (), {})
+    out = {}
+    for o in objs:
+        exec(compile(o.render(), "<td>", "exec"), ns)  # noqa: S102
+        cls = ns[o.class_name]
+        out[o.class_name] = [(k, int(re.search(r"T(\d+)", repr(v)).group(1))) for k, v in cls.__annotations__.items()]
+    return out
+
+
+def campaign_td_objects(ck: Check, n: int) -> None:
+    camp = ck.campaign("names.tdclass (Model.TypedDict: _validate_fields, is_functional_syntax, all_fields, the class Python builds) "
+                       "vs real TypedDict DataModel objects built directly (random class trees) and their rendered text, exec'd")
+    t0 = time.time()
+    rng = ck.rng.fork("tdobjects")
+    cases = []
+    for i in range(n):
+        counter = [0, 0]
+        allow_other = rng.chance(1, 4)
+        tree, ref = gen_td_tree(rng, rng.choice([0, 1, 1, 2, 2, 3]), counter, allow_other)
+        if tree is None:
+            continue
+        cases.append((tree, ref.source, counter[1], allow_other))
+    replies = ck.driver.run(["names.tdclass " + td_tree_sx(t, "mk") for t, _, _, _ in cases])
+
+    def has_other(tree) -> bool:
+        return tree is None or any(has_other(b) for b in tree[0])
+
+    def topo(o, acc):
+        for b in o.base_classes:
+            src = b.reference.source if b.reference is not None else None
+            if src is not None and src not in acc and type(src).__name__ == "TypedDict":
+                topo(src, acc)
+        if o not in acc:
+            acc.append(o)
+        return acc
+
+    for (tree, obj, n_tags, allow_other), rep in zip(cases, replies):
+        camp.evaluations += 1
+        dec = td_decode(rep)
+        own = [(f.name, f.original_name, td_tag(f)) for f in obj.fields]
+        allf = [(f.name, f.original_name, td_tag(f)) for f in obj.all_fields]
+        impl: list[Any] = [obj.is_functional_syntax, own, allf]
+        inp = {"tree": td_tree_sx(tree, "mk")}
+        camp.hit("depth_bases:" + str(min(len(tree[0]), 3)))
+        camp.hit("functional" if impl[0] else "class")
+        if len(own) != len(tree[1]):
+            camp.hit("validate_fields_dropped_a_member")
+        if has_other(tree):
+            camp.hit("has_non_typeddict_base")
+            model = list(dec[:3]) if isinstance(dec, tuple) else dec
+        else:
+            try:
+                impl.append(td_exec_tree(topo(obj, []), n_tags)[obj.class_name])
+            except Exception as e:  # noqa: BLE001
+                impl.append(f"{type(e).__name__}: {str(e)[:120]}")
+            model = list(dec) if isinstance(dec, tuple) else dec
+            if isinstance(impl[-1], list) and len(impl[-1]) < len(allf):
+                camp.hit("key_declared_more_than_once")
+        if len(allf) > len(own):
+            camp.distinct.add(inp["tree"])
+        if model != impl:
+            ck.disagree(camp, inp, model, impl)
+        elif len(camp.samples) < 2 and len(allf) > len(own) and impl[0]:
+            camp.samples.append({**inp, "functional": impl[0], "all_fields": allf, "annotations": impl[-1]})
+    camp.wall_s = time.time() - t0
+
+
+TD_GROUPS = [
+    ["unit-price", "unit_price", "unit price", "unitPrice", "unit.price", "UnitPrice", "unit__price", "unit_price_1"],
+    ["valid-until", "valid_until", "validUntil", "valid until", "Valid-Until"],
+    ["class", "class_", "Class", "def", "None", "from", "in", "True", "match"],
+    ["1st", "_1st", "field_1st", "#1st", "1st_", "field__1st"],
+    ["sku", "Sku", "SKU", "sku_", "sku-", "_sku", "#sku", "sku_1"],
+    ["", "_", "__", "#", "field", "field_"],
+    ["a", "a-", "a_", "a+", "a ", "a__1", "a_1", "A"],
+    ["fooBar", "foo_bar", "foo-bar", "FooBar", "foo bar", "foobar"],
+    ["é", "é-", "é_", "É", "ñ-é", "ñ_é"],
+    ["q'uote", "q\"uote", "q_uote", "back\\slash", "back_slash", "new\nline", "new_line", "tab\t"],
+    ["copy", "copy_", "schema", "json", "dict", "keys", "items", "get", "update", "clear"],
+]
+TD_PLAIN = ["x", "y", "name", "id", "value", "count", "tags"]
+TD_FORCE_FUNCTIONAL = ["valid-until", "a b", "1st", "class", "@id", "x-y", "$schema", "from"]
+TD_TYPES = [{"type": "number"}, {"type": "integer"}, {"type": "string"}, {"type": "boolean"}]
+TD_TARGETS = ["3.9", "3.10", "3.11", "3.12"]  # (3.13: the installed black has no such target, generate() raises KeyError)
+TD_CFGS = [Cfg(), Cfg(), Cfg(), Cfg(snake=True), Cfg(snake=True, delim="-"), Cfg(remove=True), Cfg(remove=True, pfx="x9"),
+           Cfg(noalias=True), Cfg(noalias=True, snake=True), Cfg(empty="empty"), Cfg(pfx="é")]
+TD_OPTS = [{}, {}, {}, {"use_field_description": True}, {"use_schema_description": True}, {"force_optional_for_required_fields": True},
+           {"keep_model_order": True}, {"use_standard_collections": True}, {"strict_nullable": True},
+           {"use_field_description": True, "use_schema_description": True, "keep_model_order": True}]
+
+
+def nfkc_stable(s: str) -> bool:
+    return unicodedata.normalize("NFKC", s) == s
+
+
+def gen_td_keys(rng: Rng, theme: list[list[str]], ug, k_max: int = 3) -> list[str]:
+    keys: list[str] = []
+    for g in theme:
+        keys += rng.sample(g, rng.below(k_max + 1))
+    if rng.chance(1, 2):
+        keys.append(rng.choice(TD_PLAIN))
+    if rng.chance(1, 2):
+        keys.append(rng.choice(TD_FORCE_FUNCTIONAL))
+    if rng.chance(1, 5):
+        cand = gen_name(rng, ug, 3)
+        if nfkc_stable(cand):  # identifiers Python would normalise are known finding D21 (own campaign)
+            keys.append(cand)
+    return rng.shuffle(list(dict.fromkeys(keys)))
+
+
+def gen_td_doc(rng: Rng, ug) -> dict:
+    """A TypedDict INHERITANCE document as data: classes (definition name, bases, own keys in one or more declaration
+    groups, `required` lists), whose keys are drawn so that sanitised identifiers collide between base and derived."""
+    theme = rng.sample(TD_GROUPS, rng.choice([1, 1, 2]))
+    classes: list[dict] = []
+
+    def add(name: str, bases: list[str], level: int, may_split: bool) -> None:
+        keys = gen_td_keys(rng, theme, ug)
+        inherited = [k for b in bases for k in td_wire_keys(classes, b)]
+        if inherited and rng.chance(1, 3):  # a genuine re-declaration of the SAME wire key
+            k = rng.choice(inherited)
+            if k not in keys:
+                keys.append(k)
+        groups = [keys]
+        placement = "item"
+        if may_split and len(keys) >= 2 and rng.chance(1, 6):
+            cut = rng.range(1, len(keys) - 1)
+            groups = [keys[:cut], keys[cut:]]
+            placement = "split" if rng.chance(1, 2) else "sibling"
+        c = {
+            "name": name, "bases": bases, "groups": groups, "placement": placement, "level": level,
+            "bool": [k for k in keys if rng.chance(1, 12)],
+            "item_required": [k for k in keys if rng.chance(1, 3)],
+            "top_required": [k for k in (inherited + keys) if rng.chance(1, 4)] if bases and rng.chance(1, 3) else [],
+        }
+        classes.append(c)
+
+    add("Base", [], 0, False)
+    chain_top = "Base"
+    if rng.chance(1, 2):
+        add("Mid", ["Base"], 1, True)
+        chain_top = "Mid"
+    bases = [chain_top]
+    if rng.chance(1, 5):
+        add("Other", [], 3, False)
+        bases = bases + ["Other"] if rng.chance(1, 2) else ["Other"] + bases
+    add("Derived", bases, 2, True)
+    if rng.chance(1, 4):
+        add("Sibling", ["Base"], 1, True)
+    if rng.chance(1, 6):
+        add("Leaf", ["Derived"], 0, True)
+    order = [c["name"] for c in classes]
+    if rng.chance(1, 3):
+        order = rng.shuffle(order)
+    return {"classes": classes, "order": order}
+
+
+def td_class(classes: list[dict], name: str) -> dict:
+    return next(c for c in classes if c["name"] == name)
+
+
+def td_own_keys(c: dict) -> list[str]:
+    return [k for g in c["groups"] for k in g]
+
+
+def td_wire_keys(classes: list[dict], name: str) -> list[str]:
+    """THE ORACLE'S EXPECTATION, from the schema alone: the wire keys of the schemas a class extends, and its own"""
+    c = td_class(classes, name)
+    out = [k for b in c["bases"] for k in td_wire_keys(classes, b)] + td_own_keys(c)
+    return list(dict.fromkeys(out))
+
+
+def td_schema(td: dict, descriptions: bool = True) -> dict:
+    defs = {}
+    by_name = {c["name"]: c for c in td["classes"]}
+    for name in td["order"]:
+        c = by_name[name]
+
+        def props(keys):
+            out = {}
+            for k in keys:
+                if k in c["bool"]:
+                    out[k] = True
+                else:
+                    out[k] = dict(TD_TYPES[c["level"] % len(TD_TYPES)])
+                    if descriptions:
+                        out[k]["description"] = f"member of {name}"
+            return out
+
+        def obj(keys):
+            o: dict[str, Any] = {"type": "object", "properties": props(keys)}
+            req = [k for k in keys if k in c["item_required"]]
+            if req:
+                o["required"] = req
+            return o
+
+        if not c["bases"]:
+            d = obj(td_own_keys(c))
+        else:
+            groups = c["groups"]
+            items: list[Any] = [{"$ref": f"#/definitions/{b}"} for b in c["bases"]]
+            if c["placement"] == "sibling":
+                items.append(obj(groups[0]))
+                d = {"allOf": items, "properties": props(groups[1])}
+            else:
+                items += [obj(g) for g in groups]
+                d = {"allOf": items}
+            if c["top_required"]:
+                d["required"] = list(c["top_required"])
+        d["description"] = f"schema {name}"
+        defs[name] = d
+    return {"$schema": "http://json-schema.org/draft-07/schema#", "definitions": defs}
+
+
+def td_split_collisions(c: dict, cfg: Cfg) -> set[str]:
+    """keys of a later declaration group (second inline allOf item / sibling `properties`) whose sanitised identifier
+    equals that of a DIFFERENT key of an earlier group of the same class: every group is a parse_object_fields call
+    of its own (fresh exclude_field_names), the constructor then drops the later member (known finding C07-ALLOF-SPLIT-MEMBERS)"""
+    seen: dict[str, str] = {}
+    lost: set[str] = set()
+    for g in c["groups"]:
+        dec = decode_fold(real_fold(g, dataclasses.replace(cfg, cap=False)))
+        if not isinstance(dec, list):
+            return set()
+        for (f, _), k in zip(dec, g):
+            if f in seen:
+                lost.add(k)
+        for (f, _), k in zip(dec, g):
+            seen.setdefault(f, k)
+    return lost
+
+
+@contextlib.contextmanager
+def td_recorder():
+    """observe every TypedDict model at the moment it is rendered (wrapped from outside, nothing in /repo changes)"""
+    from datamodel_code_generator.model import typed_dict as T
+
+    rec: dict[str, Any] = {}
+    orig = T.TypedDict.render
+
+    def snap_fields(fields):
+        return [(f.name, f.original_name, f.type_hint) for f in fields]
+
+    def snap_tree(m, depth=0):
+        bases = []
+        for b in m.base_classes:
+            if b.reference is None:
+                continue
+            src = b.reference.source
+            bases.append(snap_tree(src, depth + 1) if isinstance(src, T.TypedDict) and depth < 12 else None)
+        return (bases, snap_fields(m.fields))
+
+    def render(self, *, class_name=None):
+        try:
+            rec[class_name or self.class_name] = {"tree": snap_tree(self), "all_fields": snap_fields(self.all_fields),
+                                                   "functional": self.is_functional_syntax}
+        except Exception as e:  # noqa: BLE001
+            rec[class_name or self.class_name] = {"error": f"{type(e).__name__}: {e}"}
+        return orig(self, class_name=class_name)
+
+    T.TypedDict.render = render
+    try:
+        yield rec
+    finally:
+        T.TypedDict.render = orig
+
+
+TD_SCALARS = ["float", "int", "str", "bool", "Any"]
+
+
+def td_scalar_tag(text: str) -> int:
+    import re
+
+    m = re.search(r"\b(float|int|str|bool|Any)\b", text)
+    return TD_SCALARS.index(m.group(1)) if m else 9
+
+
+def td_annotation_text(v) -> str:
+    import typing
+
+    if isinstance(v, str):
+        return v
+    if isinstance(v, typing.ForwardRef):
+        return v.__forward_arg__
+    return repr(v)
+
+
+def td_run(td: dict, cfg: Cfg, opts: dict, target: str, record: bool = True):
+    """real generate() on the document → (result, recorded models)"""
+    doc = td_schema(td)
+    kw = {**parser_kwargs(cfg), **opts}
+    if record:
+        with td_recorder() as rec:
+            res = e2e.run_generate(yaml_safe_json(doc), model="typing.TypedDict", opts=kw, timeout=10.0, target=target)
+        return res, rec
+    return e2e.run_generate(yaml_safe_json(doc), model="typing.TypedDict", opts=kw, timeout=10.0, target=target), {}
+
+
+def td_oracle(td: dict, cfg: Cfg, res) -> list[tuple[dict, str]]:
+    """THE PROPERTY on one generated module: every wire key of every class's schema — own AND inherited — is a key of
+    the generated TypedDict under exactly that name, and there is no other key.  Returns one (classification, text)
+    per failing class (or one for a module that cannot be produced / imported)."""
+    base = {"oracle": "e2e_typeddict_inheritance", "kind": "typing.TypedDict", "prefix_ok": cfg.prefix_ok(), "trigger": "none"}
+    if res.hang:
+        return [({**base, "mechanism": "hang"}, "generate() did not return within 10 s")]
+    if not res.ok:
+        return [({**base, "mechanism": "generate_error"}, f"generate() raised {res.error_type}: {res.error_msg}")]
+    err = e2e.parses(res.code)
+    if err:
+        return [({**base, "mechanism": "unparsable"}, f"emitted module does not parse: {err}")]
+    try:
+        mod = e2e.load_module(res.code, "typing.TypedDict")
+    except BaseException as e:  # noqa: BLE001
+        if isinstance(e, (KeyboardInterrupt, SystemExit)):
+            raise
+        return [({**base, "mechanism": "import_error"}, f"importing the emitted module raised {type(e).__name__}: {str(e)[:200]}")]
+    out: list[tuple[dict, str]] = []
+    try:
+        for c in td["classes"]:
+            cls = getattr(mod, c["name"], None)
+            if cls is None or not hasattr(cls, "__required_keys__"):
+                out.append(({**base, "mechanism": "class_missing"}, f"no TypedDict named {c['name']} in the emitted module"))
+                continue
+            keys = set(cls.__required_keys__) | set(cls.__optional_keys__)
+            want = set(td_wire_keys(td["classes"], c["name"]))
+            if set(cls.__annotations__) != keys:
+                out.append(({**base, "mechanism": "inconsistent_class"},
+                            f"{c['name']}: __annotations__ {sorted(cls.__annotations__)!r} vs keys {sorted(keys)!r}"))
+                continue
+            if keys == want:
+                continue
+            lost, extra = want - keys, keys - want
+            mech = "unexpected_key" if extra else ("own_key_lost" if lost <= set(td_own_keys(c)) else "inherited_key_lost")
+            # classification of the one known mechanism: own keys of a class (this one or one it extends) declared in
+            # SEVERAL groups whose identifiers collide across the groups — and nothing else is wrong with the class
+            explained: set[str] = set()
+            for d in td["classes"]:
+                if d["name"] == c["name"] or d["name"] in td_ancestors(td["classes"], c["name"]):
+                    explained |= td_split_collisions(d, cfg)
+            trigger = "own_keys_in_several_groups_collide" if (not extra and lost and lost <= explained) else "none"
+            out.append(({**base, "mechanism": mech, "trigger": trigger},
+                        f"TypedDict {c['name']}: keys {sorted(keys)!r} but the wire keys of its schema (own and inherited) are "
+                        f"{sorted(want)!r}; lost {sorted(lost)!r}, unexpected {sorted(extra)!r}"))
+    finally:
+        e2e.unload(mod)
+    return out
+
+
+def td_ancestors(classes: list[dict], name: str) -> list[str]:
+    out = []
+    for b in td_class(classes, name)["bases"]:
+        out += [b] + td_ancestors(classes, b)
+    return out
+
+
+def td_shrink(td: dict, cfg: Cfg, opts: dict, target: str, cls0: dict, budget: int = 60) -> dict:
+    """greedy reduction of a failing document: drop classes nothing failing depends on, then keys, then lists —
+    keeping a candidate only when the oracle still fails with the same classification"""
+    import copy
+
+    def fails(cand) -> bool:
+        try:
+            res, _ = td_run(cand, cfg, opts, target, record=False)
+            r = td_oracle(cand, cfg, res)
+        except Exception:  # noqa: BLE001
+            return False
+        return any(c == cls0 for c, _ in r)
+
+    cur = copy.deepcopy(td)
+    steps = 0
+    changed = True
+    while changed and steps < budget:
+        changed = False
+        for c in list(cur["classes"]):  # drop a class that no other class extends
+            if any(c["name"] in d["bases"] for d in cur["classes"]):
+                continue
+            cand = copy.deepcopy(cur)
+            cand["classes"] = [d for d in cand["classes"] if d["name"] != c["name"]]
+            cand["order"] = [n for n in cand["order"] if n != c["name"]]
+            steps += 1
+            if cand["classes"] and fails(cand):
+                cur, changed = cand, True
+                break
+        if changed:
+            continue
+        for ci, c in enumerate(cur["classes"]):
+            for gi, g in enumerate(c["groups"]):
+                for k in g:
+                    if steps >= budget:
+                        return cur
+                    cand = copy.deepcopy(cur)
+                    cc = cand["classes"][ci]
+                    cc["groups"][gi] = [x for x in g if x != k]
+                    for lst in ("bool", "item_required"):
+                        cc[lst] = [x for x in cc[lst] if x != k]
+                    for d in cand["classes"]:
+                        d["top_required"] = [x for x in d["top_required"] if x in td_wire_keys(cand["classes"], d["name"])]
+                    steps += 1
+                    if fails(cand):
+                        cur, changed = cand, True
+                        break
+                if changed:
+                    break
+            if changed:
+                break
+        if changed:
+            continue
+        for ci, c in enumerate(cur["classes"]):
+            for lst in ("top_required", "item_required", "bool"):
+                if c[lst] and steps < budget:
+                    cand = copy.deepcopy(cur)
+                    cand["classes"][ci][lst] = []
+                    steps += 1
+                    if fails(cand):
+                        cur, changed = cand, True
+                        break
+            if changed:
+                break
+    return cur
+
+
+def td_case(ck: Check, camp, td: dict, cfg: Cfg, opts: dict, target: str, pending: list | None = None, shrink: bool = True) -> None:
+    """one inheritance document: the property's oracle on the imported module, and (pending) the model's prediction of
+    all_fields / syntax / class keys for every recorded model"""
+    camp.evaluations += 1
+    inp = {"td_doc": td, "cfg": cfg.label(), "cfg_fields": dataclasses.asdict(cfg), "opts": opts, "target": target,
+           "schema": td_schema(td, descriptions=False)}
+    res, rec = td_run(td, cfg, opts, target)
+    camp.hit("target:" + target)
+    camp.hit("classes:" + str(len(td["classes"])))
+    for c in td["classes"]:
+        if c["bases"]:
+            camp.hit("placement:" + c["placement"])
+            camp.hit("bases:" + str(len(c["bases"])))
+            if c["top_required"]:
+                camp.hit("top_level_required")
+            inh = set(k for b in c["bases"] for k in td_wire_keys(td["classes"], b))
+            if inh & set(td_own_keys(c)):
+                camp.hit("redeclares_inherited_key")
+    shrunk = False
+    for cls0, text in td_oracle(td, cfg, res):
+        finp = inp
+        if match_known(ck, cls0) is None:
+            camp.hit("oracle_failure:" + cls0["mechanism"])
+            if shrink and not shrunk and not ck.failures:  # minimise the first new failure of the run only
+                shrunk = True
+                small = td_shrink(td, cfg, opts, target, cls0)
+                if small != td:
+                    res2, _ = td_run(small, cfg, opts, target, record=False)
+                    again = [t for c, t in td_oracle(small, cfg, res2) if c == cls0]
+                    if again:
+                        finp = {**inp, "td_doc": small, "schema": td_schema(small, descriptions=False),
+                                "shrunk_from": {"classes": len(td["classes"]), "keys": sum(len(td_own_keys(c)) for c in td["classes"])}}
+                        text = again[0]
+        else:
+            camp.hit("known:" + cls0["trigger"])
+        ck.fail(cls0, finp, text)
+    if not res.ok or pending is None:
+        return
+    # correspondence: the models as they were when rendered, against Model.TypedDict
+    try:
+        mod = e2e.load_module(res.code, "typing.TypedDict")
+    except BaseException as e:  # noqa: BLE001
+        if isinstance(e, (KeyboardInterrupt, SystemExit)):
+            raise
+        return
+    try:
+        for c in td["classes"]:
+            r = rec.get(c["name"])
+            cls = getattr(mod, c["name"], None)
+            if r is None or "error" in r or cls is None or not hasattr(cls, "__annotations__"):
+                continue
+
+            def tagged(fields):
+                return [(n, o, td_scalar_tag(h)) for n, o, h in fields]
+
+            def tree_tagged(t):
+                return None if t is None else ([tree_tagged(b) for b in t[0]], tagged(t[1]))
+
+            tree = tree_tagged(r["tree"])
+            ann = [(k, td_scalar_tag(td_annotation_text(v))) for k, v in cls.__annotations__.items()]
+            impl = [r["functional"], tagged(r["tree"][1]), tagged(r["all_fields"]), ann]
+            distinct = bool(c["bases"]) and len(impl[2]) > len(impl[1])
+            pending.append((td_tree_sx(tree, "cls"), impl, {**inp, "class": c["name"]}, distinct))
+            # the class's own members, when they come from ONE parse_object_fields call: the fold model (fresh excludes)
+            if len(c["groups"]) == 1 and not c["top_required"] and not any("Σ" in k for k in c["groups"][0]):
+                pending.append(("fold", (c["groups"][0], cfg, [(n, o) for n, o, _ in r["tree"][1]]), {**inp, "class": c["name"]}, False))
+    finally:
+        e2e.unload(mod)
+
+
+def match_known(ck: Check, classification: dict):
+    from ..runner import match_finding
+
+    return match_finding(ck.findings, classification)
+
+
+TD_CORPUS = [
+    # (classes, order) minimised shapes: base key / different derived key with the same identifier / functional syntax
+    {"classes": [
+        {"name": "Base", "bases": [], "groups": [["unit-price", "sku"]], "placement": "item", "level": 0, "bool": [],
+         "item_required": ["sku"], "top_required": []},
+        {"name": "Derived", "bases": ["Base"], "groups": [["unit_price", "valid-until"]], "placement": "item", "level": 1,
+         "bool": [], "item_required": [], "top_required": []},
+        {"name": "Strict", "bases": ["Base"], "groups": [["unit-price", "valid-until"]], "placement": "item", "level": 1,
+         "bool": [], "item_required": [], "top_required": []},
+        {"name": "Plain", "bases": ["Base"], "groups": [["unit_price", "x"]], "placement": "item", "level": 1,
+         "bool": [], "item_required": [], "top_required": []},
+        {"name": "Leaf", "bases": ["Derived"], "groups": [["unit price", "sku"]], "placement": "item", "level": 2,
+         "bool": [], "item_required": [], "top_required": ["unit-price"]},
+    ], "order": ["Base", "Derived", "Strict", "Plain", "Leaf"]},
+    {"classes": [
+        {"name": "Base", "bases": [], "groups": [["class", "a-"]], "placement": "item", "level": 0, "bool": [],
+         "item_required": [], "top_required": []},
+        {"name": "Other", "bases": [], "groups": [["a+", "class_"]], "placement": "item", "level": 3, "bool": ["a+"],
+         "item_required": [], "top_required": []},
+        {"name": "Derived", "bases": ["Base", "Other"], "groups": [["a_", "1st"]], "placement": "item", "level": 2,
+         "bool": [], "item_required": [], "top_required": ["class"]},
+    ], "order": ["Derived", "Other", "Base"]},
+]
+
+
+def campaign_td_inherit(ck: Check, n: int) -> None:
+    camp = ck.campaign("e2e TypedDict inheritance (allOf + $ref documents → real generate() → import → every wire key, own and "
+                       "inherited, is a key of the class; names.tdclass / names.fold vs the models as rendered)")
+    t0 = time.time()
+    rng = ck.rng.fork("tdinherit")
+    ug = uni_groups()
+    pending: list = []
+    for td in TD_CORPUS:
+        for target in ("3.9", "3.12"):
+            td_case(ck, camp, td, Cfg(), {}, target, pending)
+    for i in range(n):
+        if hung(ck):
+            break
+        td = gen_td_doc(rng, ug)
+        cfg = rng.choice(TD_CFGS)
+        opts = dict(rng.choice(TD_OPTS))
+        target = rng.choice(TD_TARGETS)
+        td_case(ck, camp, td, cfg, opts, target, pending)
+    td_correspond(ck, camp, pending)
+    camp.wall_s = time.time() - t0
+
+
+def td_correspond(ck: Check, camp, pending: list) -> None:
+    reqs = []
+    for what, impl, _, _ in pending:
+        if what == "fold":
+            names, cfg, _ = impl
+            reqs.append(f"names.fold pydantic {dataclasses.replace(cfg, cap=False).sx()} {props_sx(names, None)}")
+        else:
+            reqs.append("names.tdclass " + what)
+    for (what, impl, inp, distinct), rep in zip(pending, ck.driver.run(reqs)):
+        slim = {k: v for k, v in inp.items() if k != "schema"}
+        if what == "fold":
+            names, cfg, observed = impl
+            dec = decode_fold(rep)
+            model = [(f, n_) for (f, _), n_ in zip(dec, names)] if isinstance(dec, list) else dec
+            camp.hit("own_members_vs_fold")
+            if model != observed:
+                ck.disagree(camp, {**slim, "against": "own members of the class (fresh excludes per class)"}, model, observed)
+            continue
+        dec = td_decode(rep)
+        model = list(dec) if isinstance(dec, tuple) else dec
+        camp.hit("syntax:" + ("functional" if impl[0] else "class"))
+        if distinct:
+            camp.distinct.add(what)
+        if model != impl:
+            ck.disagree(camp, {**slim, "against": "TypedDict model at render time: [functional, own, all_fields, annotations]"}, model, impl)
+        elif len(camp.samples) < 3 and distinct and impl[0]:
+            camp.samples.append({"class": inp["class"], "schema": inp["schema"], "target": inp["target"], "annotations": impl[3]})
+
+
 # ---------------------------------------------------------------- known findings, search, run, replay
 def known_findings(ck: Check) -> None:
     """Re-run the stored witness of every open finding; print KNOWN-FINDING when it still fails."""
@@ -824,6 +1492,9 @@ def known_findings(ck: Check) -> None:
         cfg = Cfg(**{k: (tuple(map(tuple, v)) if k == "aliases" else v) for k, v in w.get("cfg", {}).items()})
         if w["level"] == "function":
             still = real_valid(w["kind"], cfg, w["name"], w.get("excludes"), False, False, timeout=1.0) == "fuel"
+        elif w["level"] == "typeddict_inheritance":
+            td_case(probe, camp, w["td_doc"], cfg, w.get("opts", {}), w.get("target", "3.12"), shrink=False)
+            still = bool(probe.failures)
         else:
             e2e_case(probe, camp, w["names"], cfg, w["model"], nested=w.get("nested"))
             still = bool(probe.failures)
@@ -867,6 +1538,23 @@ def search_names(ck: Check) -> None:
             return
 
 
+def search_td(ck: Check) -> None:
+    """Targeted search when a proof or a correspondence about TypedDict members broke: the corpus of inheritance
+    shapes and a fresh stream of inheritance documents, end to end (stops at the first oracle failure)."""
+    camp = ck.campaign("search: TypedDict inheritance documents, end to end")
+    rng = ck.rng.fork("tdsearch")
+    ug = uni_groups()
+    for td in TD_CORPUS:
+        for target in ("3.9", "3.12"):
+            td_case(ck, camp, td, Cfg(), {}, target)
+            if ck.failures:
+                return
+    for _ in range(300):
+        td_case(ck, camp, gen_td_doc(rng, ug), rng.choice(TD_CFGS), {}, rng.choice(TD_TARGETS))
+        if ck.failures:
+            return
+
+
 def hung(ck: Check) -> bool:
     """an unexplained hang of the real code was already recorded: the verdict is settled, do not spend the
     budget on further time-outs"""
@@ -902,6 +1590,10 @@ def run(ck: Check) -> None:
     if not hung(ck):
         campaign_e2e(ck, 700 if quick else 6000, names)
         campaign_typeddict_syntax(ck)
+    if not hung(ck):
+        campaign_td_objects(ck, 400 if quick else 6000)
+        campaign_td_inherit(ck, 220 if quick else 4000)
+    ck.search_hooks.append(search_td)
     ck.search_hooks.append(search_names)
     known_findings(ck)
 
@@ -912,7 +1604,9 @@ def replay(ck: Check, path: str) -> int:
     camp = ck.campaign("replay")
     cf = inp.get("cfg_fields") or {}
     cfg = Cfg(**{k: (tuple(map(tuple, v)) if k == "aliases" else v) for k, v in cf.items()})
-    if "model" in inp and "names" in inp:
+    if "td_doc" in inp:
+        td_case(ck, camp, inp["td_doc"], cfg, inp.get("opts", {}), inp.get("target", "3.12"), shrink=False)
+    elif "model" in inp and "names" in inp:
         e2e_case(ck, camp, inp["names"], cfg, inp["model"], inp.get("required", False), inp.get("nested"), inp.get("bools"))
     elif "names" in inp:
         rep = stage1_fields(inp["names"], cfg, bools=inp.get("bools"))
